@@ -50,7 +50,7 @@ type ccComp struct {
 
 func init() { components["cc"] = &ccComp{} }
 
-const ccDeadline = 20 * time.Second
+var ccDeadline = scaled(20 * time.Second)
 
 // ccBroken is set once a deadline has fired: goroutines of the operation under test may be
 // leaked (blocked or spinning), so every later concurrent operation answers at once.
